@@ -86,7 +86,7 @@ def lockstep_scenarios(tier, seed):
 
 
 def models(tier, seed):
-    ms = [dict(module="MC_BankMachine", cfg="MC_BankMachine_quick.cfg", label="bank machine + device observer (auto-precharge)", workers=4, timeout=2400),
+    ms = [dict(module="MC_BankMachine", cfg="MC_BankMachine_quick.cfg", label="bank machine + device observer (auto-precharge); every step refines A_BankMachine", workers=4, timeout=2400),
           dict(module="MC_BankMachine", cfg="MC_BankMachine_neg_twtp.cfg", label="negative control: write-to-precharge one cycle short", workers=2, timeout=2400, expect_violation=True),
           dict(module="MC_BankMachine", cfg="MC_BankMachine_neg_reftras.cfg", label="negative control: refresh granted without waiting tRAS (defect fixed in 7014c8e)", workers=2, timeout=2400, expect_violation=True),
           dict(module="MC_BankMachine", cfg="MC_BankMachine_cover_ap.cfg", label="cover: AUTOPRECHARGE state", workers=1, timeout=1200, expect_violation=True),
